@@ -118,6 +118,30 @@ def serde_and_change(ctx, prog):
                detail='' if tf else 'derived Deserialize does not call TryFrom<Vec<T>>', functions=[short(fs[0].name)],
                sample='derived Deserialize of OrderedSet converts through TryFrom<Vec<T>> (duplicate keys -> error)'))
 
+    # OneOrMany's Serialize is the untagged form of its own variant: One(x) -> x, Many(v) -> the whole sequence v (so that the
+    # derived untagged Deserialize reads back the variant that was written)
+    fs = [g for g in prog.funcs if re.search(r'one_or_many::(_::)?<impl [^>]*>::serialize$', g.name)]
+    if len(fs) != 1:
+        raise Refuse('Serialize of OneOrMany: %d candidates' % len(fs))
+    paths, ex = A.paths(fs[0])
+
+    def r_ser(p):
+        if p.kind != 'return':
+            return 'panic ' + p.msg
+        t = strip(p.term())
+        if not (isinstance(t, tuple) and t and t[0] == 'app' and re.search(r'Serialize>::serialize$', t[1])):
+            return 'result is not the serialisation of one value'
+        fp = field_path(strip(t[2][0]))
+        if not fp or fp[0] != 'self' or len(fp[1]) != 1:
+            return 'serialised value is not the payload of the variant as a whole: %s' % term_str(t[2][0])[:120]
+        variant = fp[1][0][0]
+        if str(variant) == 'Many' and 'Vec<' not in t[1]:
+            return 'Many(v) not serialised as the sequence v'
+        if str(variant) == 'One' and 'Vec<' in t[1]:
+            return 'One(x) serialised as a sequence'
+        return None
+    A.require('OneOrMany::serialize/variant-payload-as-it-is', paths, r_ser, replay=REPLAY)
+
     # change (replace / update): only order-preserving vector operations; the entry at the first match is the new value
     f = prog.one(r'ordered_set::<impl at [^>]*>::change$')
     paths, ex = A.paths(f, inline=r'ordered_set::<impl at [^>]*>::change::\{closure', allow_bound=True)
